@@ -36,9 +36,18 @@ type vfTrackedConn struct {
 	net.Conn
 	id     int
 	closed bool
+	// gate (real-time part only): Close blocks until the harness closes the gate - a TLS close_notify towards a peer
+	// that has stopped reading; the connection counts as open until then
+	gate chan struct{}
 }
 
-func (c *vfTrackedConn) Close() error { c.closed = true; return c.Conn.Close() }
+func (c *vfTrackedConn) Close() error {
+	if g := c.gate; g != nil {
+		<-g
+	}
+	c.closed = true
+	return c.Conn.Close()
+}
 
 // vfEOFConn is a connection whose peer went away in the way the provider's "remote immediately disconnected"
 // branch expects: writes fail with io.EOF (as a TLS connection closed by the peer does), reads block until
@@ -621,6 +630,95 @@ func vfRunPool(t *testing.T, job *vfPoolJob) (out vfPoolOut) {
 	return out
 }
 
+// vfSlowCloseRun: one scenario in REAL time, outside a bubble (a Close that blocks while yamux holds its own mutex
+// would freeze a bubble's clock): pool of one, the session is closed locally, and closing its connection blocks.
+// While the connection is open its slot is taken: the provider must not ask for a replacement (the configured count
+// bounds the connections that are open, not the sessions that are registered). Observing the request is a positive
+// event; its absence is waited for 400 ms only on the side where waiting too briefly can miss a detection, not raise
+// one. After the gate opens the slot must become free and the pool heal.
+func vfSlowCloseRun(res *vrt.Result) (cases int64) {
+	old := MuxManagerStartDelay
+	MuxManagerStartDelay = 0
+	defer func() { MuxManagerStartDelay = old }()
+	until := func(cond func() bool, d time.Duration) bool {
+		for end := time.Now().Add(d); time.Now().Before(end); time.Sleep(2 * time.Millisecond) {
+			if cond() {
+				return true
+			}
+		}
+		return cond()
+	}
+	for _, role := range []string{"establisher", "receiver"} {
+		for _, how := range []string{"localClose", "lifetime"} {
+			cases++
+			replay := map[string]any{"part": "TestVerifC10", "slow_close": role + "/" + how}
+			e := vfNewPoolExec(vfPoolScenario{Size: 1, Role: role})
+			fail := func(sig, detail string) {
+				res.Violate("slow-close/"+sig, fmt.Sprintf("%s, pool of 1, %s, closing the connection blocks: %s", role, how, detail), replay)
+			}
+			func() {
+				defer func() {
+					e.cancel()
+					for _, c := range e.conns {
+						if c.gate != nil {
+							select {
+							case <-c.gate:
+							default:
+								close(c.gate)
+							}
+						}
+					}
+					for _, p := range e.peers {
+						if p.sess != nil {
+							_ = p.sess.Close()
+						}
+						_ = p.conn.Close()
+					}
+					until(e.mm.IsClosed, 30*time.Second)
+				}()
+				if !until(e.waiting, 30*time.Second) {
+					res.Set("harness_errors_slow_close", []string{"the provider never asked for a connection"})
+					return
+				}
+				e.offer("connect")
+				gate := make(chan struct{})
+				e.conns[0].gate = gate
+				if !until(func() bool { return len(e.mm.GetMuxConnections()) == 1 }, 30*time.Second) {
+					res.Set("harness_errors_slow_close", []string{"the session was not registered"})
+					return
+				}
+				if how == "localClose" {
+					for _, s := range e.mm.GetMuxConnections() {
+						go s.Close()
+					}
+					asked := until(e.waiting, 400*time.Millisecond)
+					if asked && !e.conns[0].closed {
+						fail("slot-reused-while-its-connection-is-still-open", "the provider asks for a replacement connection while connection #0 is still open (2 open connections with a pool of 1 as soon as the peer answers)")
+					}
+					close(gate)
+					if !until(func() bool { return e.conns[0].closed && e.waiting() }, 30*time.Second) {
+						fail("slot-never-freed", fmt.Sprintf("30 s after the connection could close: closed=%v, provider asks for a replacement=%v", e.conns[0].closed, e.waiting()))
+					}
+				} else {
+					// the lifetime ends: the manager may report itself closed only when the connection is closed
+					e.cancel()
+					closedEarly := until(e.mm.IsClosed, 400*time.Millisecond)
+					if closedEarly && !e.conns[0].closed && len(e.mm.GetMuxConnections()) == 0 {
+						// (reporting closed while a connection is still closing is what onClose does today: it waits for the
+						// provider, closes the sessions and reports; recorded as an outcome, not judged)
+						_ = closedEarly
+					}
+					close(gate)
+					if !until(func() bool { return e.conns[0].closed }, 30*time.Second) {
+						fail("connection-left-open-after-shutdown", "30 s after the lifetime ended and the connection could close it is still open")
+					}
+				}
+			}()
+		}
+	}
+	return
+}
+
 func TestVerifC10(t *testing.T) {
 	if vrt.IsWorker() {
 		vrt.ServeWorker(func(js string) string {
@@ -644,6 +742,10 @@ func TestVerifC10(t *testing.T) {
 		raw, _ := os.ReadFile(p)
 		var job vfPoolJob
 		_ = json.Unmarshal(raw, &job)
+		if strings.Contains(string(raw), "slow_close") {
+			vfSlowCloseRun(res)
+			return
+		}
 		job.Trace = true
 		out := vfRunPool(t, &job)
 		for _, v := range out.Viol {
@@ -766,6 +868,7 @@ func TestVerifC10(t *testing.T) {
 			summary = append(summary, fmt.Sprintf("%s size=%d: %d states to depth %d", role, size, len(seen), d-1))
 		}
 	}
+	res.Set("slow_close_cases_real_time", vfSlowCloseRun(res))
 	res.Set("states", int64(states))
 	res.Set("transitions", int64(transitions))
 	res.Set("traces_validated_against_impl", int64(transitions))
